@@ -263,6 +263,94 @@ func c08Start(root string) *server {
 	return srv.s
 }
 
+// c08Op picks one request; it returns the call, the model after it is acknowledged and a name.
+func c08Op(s *server, m c08Model, i int) (func() error, c08Model, string) {
+	next := m.clone()
+	var run func() error
+	opName := "op"
+	switch vChoice("op", 0, 4) {
+	case 0:
+		run = func() error {
+			_, err := s.CreateTable(vCtx(), &btapb.CreateTableRequest{Parent: vParent, TableId: "t", Table: &btapb.Table{
+				ColumnFamilies: map[string]*btapb.ColumnFamily{"f": {}}}})
+			return err
+		}
+		if !m.exists {
+			next = c08Model{exists: true, fams: map[string]bool{"f": true}, rules: map[string]int32{}}
+			next.cells[0], next.cells[1] = map[string]byte{}, map[string]byte{}
+		}
+	case 1:
+		run = func() error { _, err := s.DeleteTable(vCtx(), &btapb.DeleteTableRequest{Name: vTable}); return err }
+		if m.exists {
+			next = c08Model{fams: map[string]bool{}, rules: map[string]int32{}}
+			next.cells[0], next.cells[1] = map[string]byte{}, map[string]byte{}
+		}
+	case 2:
+		mk := vChoice("modify.kind", 0, 2) // 0 create g, 1 drop f, 2 update f's GC rule
+		drop := mk == 1
+		run = func() error {
+			mod := &btapb.ModifyColumnFamiliesRequest_Modification{Id: "g", Mod: &btapb.ModifyColumnFamiliesRequest_Modification_Create{Create: &btapb.ColumnFamily{}}}
+			if drop {
+				mod = &btapb.ModifyColumnFamiliesRequest_Modification{Id: "f", Mod: &btapb.ModifyColumnFamiliesRequest_Modification_Drop{Drop: true}}
+			}
+			if mk == 2 {
+				mod = &btapb.ModifyColumnFamiliesRequest_Modification{Id: "f", Mod: &btapb.ModifyColumnFamiliesRequest_Modification_Update{Update: &btapb.ColumnFamily{GcRule: c14Rule(5)}}}
+			}
+			_, err := s.ModifyColumnFamilies(vCtx(), &btapb.ModifyColumnFamiliesRequest{Name: vTable, Modifications: []*btapb.ModifyColumnFamiliesRequest_Modification{mod}})
+			return err
+		}
+		if m.exists {
+			if drop && m.fams["f"] {
+				delete(next.fams, "f")
+				delete(next.rules, "f")
+				delete(next.cells[0], "f")
+				delete(next.cells[1], "f")
+			} else if mk == 0 && !m.fams["g"] {
+				next.fams["g"] = true
+			} else if mk == 2 && m.fams["f"] {
+				next.rules["f"] = 5
+			}
+		}
+	case 3:
+		r := vChoice("set.row", 0, 1)
+		fam := []string{"f", "g"}[vChoice("set.fam", 0, 1)]
+		val := byte('0' + i)
+		run = func() error {
+			_, err := s.MutateRow(vCtx(), &btpb.MutateRowRequest{TableName: vTable, RowKey: []byte(c08Keys[r]), Mutations: []*btpb.Mutation{
+				{Mutation: &btpb.Mutation_SetCell_{SetCell: &btpb.Mutation_SetCell{FamilyName: fam, ColumnQualifier: []byte("q"), TimestampMicros: 1000, Value: []byte{val}}}}}})
+			return err
+		}
+		if m.exists && m.fams[fam] {
+			next.cells[r][fam] = val
+		}
+	case 4:
+		sel := vChoice("drop.kind", 0, 2) // 0: prefix "a" (one row), 1: all rows, 2: empty prefix (every row, deleted one by one)
+		all := sel == 1
+		run = func() error {
+			pfx := []byte("a")
+			if sel == 2 {
+				pfx = []byte{}
+			}
+			req := &btapb.DropRowRangeRequest{Name: vTable, Target: &btapb.DropRowRangeRequest_RowKeyPrefix{RowKeyPrefix: pfx}}
+			if all {
+				req.Target = &btapb.DropRowRangeRequest_DeleteAllDataFromTable{DeleteAllDataFromTable: true}
+			}
+			_, err := s.DropRowRange(vCtx(), req)
+			return err
+		}
+		if m.exists {
+			next.cells[0] = map[string]byte{}
+			if all || sel == 2 {
+				next.cells[1] = map[string]byte{}
+			}
+			if sel == 2 {
+				opName = "DropRowRange-by-prefix-matching-several-rows"
+			}
+		}
+	}
+	return run, next, opName
+}
+
 func H_C08_crash() {
 	vInlineGo(true) // the listener and GC-timer goroutines are inert stubs here
 	vCrashAt = -1
@@ -291,89 +379,7 @@ func H_C08_crash() {
 	var before, after c08Model
 	inflight := false
 	for i := 0; i < k && !vCrashed; i++ {
-		next := m.clone()
-		var run func() error
-		opName := "op"
-		switch vChoice("op", 0, 4) {
-		case 0:
-			run = func() error {
-				_, err := s.CreateTable(vCtx(), &btapb.CreateTableRequest{Parent: vParent, TableId: "t", Table: &btapb.Table{
-					ColumnFamilies: map[string]*btapb.ColumnFamily{"f": {}}}})
-				return err
-			}
-			if !m.exists {
-				next = c08Model{exists: true, fams: map[string]bool{"f": true}, rules: map[string]int32{}}
-				next.cells[0], next.cells[1] = map[string]byte{}, map[string]byte{}
-			}
-		case 1:
-			run = func() error { _, err := s.DeleteTable(vCtx(), &btapb.DeleteTableRequest{Name: vTable}); return err }
-			if m.exists {
-				next = c08Model{fams: map[string]bool{}, rules: map[string]int32{}}
-				next.cells[0], next.cells[1] = map[string]byte{}, map[string]byte{}
-			}
-		case 2:
-			mk := vChoice("modify.kind", 0, 2) // 0 create g, 1 drop f, 2 update f's GC rule
-			drop := mk == 1
-			run = func() error {
-				mod := &btapb.ModifyColumnFamiliesRequest_Modification{Id: "g", Mod: &btapb.ModifyColumnFamiliesRequest_Modification_Create{Create: &btapb.ColumnFamily{}}}
-				if drop {
-					mod = &btapb.ModifyColumnFamiliesRequest_Modification{Id: "f", Mod: &btapb.ModifyColumnFamiliesRequest_Modification_Drop{Drop: true}}
-				}
-				if mk == 2 {
-					mod = &btapb.ModifyColumnFamiliesRequest_Modification{Id: "f", Mod: &btapb.ModifyColumnFamiliesRequest_Modification_Update{Update: &btapb.ColumnFamily{GcRule: c14Rule(5)}}}
-				}
-				_, err := s.ModifyColumnFamilies(vCtx(), &btapb.ModifyColumnFamiliesRequest{Name: vTable, Modifications: []*btapb.ModifyColumnFamiliesRequest_Modification{mod}})
-				return err
-			}
-			if m.exists {
-				if drop && m.fams["f"] {
-					delete(next.fams, "f")
-					delete(next.rules, "f")
-					delete(next.cells[0], "f")
-					delete(next.cells[1], "f")
-				} else if mk == 0 && !m.fams["g"] {
-					next.fams["g"] = true
-				} else if mk == 2 && m.fams["f"] {
-					next.rules["f"] = 5
-				}
-			}
-		case 3:
-			r := vChoice("set.row", 0, 1)
-			fam := []string{"f", "g"}[vChoice("set.fam", 0, 1)]
-			val := byte('0' + i)
-			run = func() error {
-				_, err := s.MutateRow(vCtx(), &btpb.MutateRowRequest{TableName: vTable, RowKey: []byte(c08Keys[r]), Mutations: []*btpb.Mutation{
-					{Mutation: &btpb.Mutation_SetCell_{SetCell: &btpb.Mutation_SetCell{FamilyName: fam, ColumnQualifier: []byte("q"), TimestampMicros: 1000, Value: []byte{val}}}}}})
-				return err
-			}
-			if m.exists && m.fams[fam] {
-				next.cells[r][fam] = val
-			}
-		case 4:
-			sel := vChoice("drop.kind", 0, 2) // 0: prefix "a" (one row), 1: all rows, 2: empty prefix (every row, deleted one by one)
-			all := sel == 1
-			run = func() error {
-				pfx := []byte("a")
-				if sel == 2 {
-					pfx = []byte{}
-				}
-				req := &btapb.DropRowRangeRequest{Name: vTable, Target: &btapb.DropRowRangeRequest_RowKeyPrefix{RowKeyPrefix: pfx}}
-				if all {
-					req.Target = &btapb.DropRowRangeRequest_DeleteAllDataFromTable{DeleteAllDataFromTable: true}
-				}
-				_, err := s.DropRowRange(vCtx(), req)
-				return err
-			}
-			if m.exists {
-				next.cells[0] = map[string]byte{}
-				if all || sel == 2 {
-					next.cells[1] = map[string]byte{}
-				}
-				if sel == 2 {
-					opName = "DropRowRange-by-prefix-matching-several-rows"
-				}
-			}
-		}
+		run, next, opName := c08Op(s, m, i)
 		if i == crashReq {
 			// crash inside this request, after a chosen number of its durable effects
 			vCrashAt = vEffects + vChoice("crash.after-effects", 0, 6)
@@ -418,6 +424,42 @@ func H_C08_crash() {
 	}
 }
 
+// H_C08_reopen: requests served by a server that was started on existing data: they take effect
+// at once and survive the next restart exactly like requests on tables created in this process.
+func H_C08_reopen() {
+	vInlineGo(true)
+	vCrashAt = -1
+	s := c08Start("/data")
+	m := c08Model{exists: true, fams: map[string]bool{"f": true}, rules: map[string]int32{}}
+	m.cells[0], m.cells[1] = map[string]byte{}, map[string]byte{}
+	_, err := s.CreateTable(vCtx(), &btapb.CreateTableRequest{Parent: vParent, TableId: "t", Table: &btapb.Table{
+		ColumnFamilies: map[string]*btapb.ColumnFamily{"f": {}}}})
+	if err != nil {
+		vFatal("seed CreateTable")
+	}
+	for r, k := range c08Keys {
+		_, err := s.MutateRow(vCtx(), &btpb.MutateRowRequest{TableName: vTable, RowKey: []byte(k), Mutations: []*btpb.Mutation{
+			{Mutation: &btpb.Mutation_SetCell_{SetCell: &btpb.Mutation_SetCell{FamilyName: "f", ColumnQualifier: []byte("q"), TimestampMicros: 1000, Value: []byte{'s'}}}}}})
+		if err != nil {
+			vFatal("seed MutateRow")
+		}
+		m.cells[r]["f"] = 's'
+	}
+	s2 := c08Start("/data")
+	vAssert(c08Matches(s2, m), "reopen:restart-serves-the-acknowledged-state")
+	k := vBound("reopen-requests", 2, 3)
+	for i := 0; i < k; i++ {
+		run, next, _ := c08Op(s2, m, i)
+		run()
+		m = next
+		vAssert(c08Matches(s2, m), "reopen:request-on-a-reopened-table-takes-effect")
+	}
+	s3 := c08Start("/data")
+	vAssert(c08Matches(s3, m), "reopen:restart-serves-exactly-the-acknowledged-state")
+	vReach("c08-reopen")
+}
+
 func init() {
+	vHarnesses["H_C08_reopen"] = H_C08_reopen
 	vHarnesses["H_C08_crash"] = H_C08_crash
 }
